@@ -739,6 +739,7 @@ class Factory:
     """protocol_factory for reader threads."""
 
     __symex_native__ = True
+    __symex_opaque__ = True
 
     def __init__(self, proto):
         self.proto = proto
